@@ -1,5 +1,6 @@
 /- line-protocol handlers for the C09 models (Model/Glyf.lean) -/
 import FontVerif.Model.Glyf
+import FontVerif.Model.GlyfPath
 namespace FontVerif.Drv.C09
 open FontVerif FontVerif.Glyf
 
@@ -134,8 +135,53 @@ def showOwned (data : List Nat) : String :=
       | none => "trap"
       | some cs => s!"{joinNats (cs.map List.length)} | {showPoints cs.flatten}"
 
+/-- path elements: `M x y`, `L x y`, `Q cx cy x y`, `C`, `Z` -/
+partial def pEls : P (List GlyfPath.El) := fun s =>
+  match s with
+  | [] => some ([], [])
+  | _ =>
+    let one : P GlyfPath.El := do
+      let k ← tok
+      match k with
+      | "M" => do let x ← pInt; let y ← pInt; pure (.move x y)
+      | "L" => do let x ← pInt; let y ← pInt; pure (.line x y)
+      | "Q" => do let a ← pInt; let b ← pInt; let x ← pInt; let y ← pInt; pure (.quad a b x y)
+      | "C" => pure .cubic
+      | "Z" => pure .close
+      | _ => failure
+    match one s with
+    | none => none
+    | some (e, r) => match pEls r with
+      | none => none
+      | some (es, r') => some (e :: es, r')
+
+def showFromBezpath (els : List GlyfPath.El) : String :=
+  match GlyfPath.fromBezpath els with
+  | .error .hasCubic => "err:HasCubic"
+  | .error .missingMove => "err:MissingMove"
+  | .ok g =>
+    s!"{g.xMin} {g.yMin} {g.xMax} {g.yMax} | {joinNats (g.contours.map List.length)} | {showPoints g.contours.flatten}"
+
+/-- skrifa unscaled draw of a simple glyph given by its bytes: pen calls in 26.6 units -/
+def showDraw (data : List Nat) : String :=
+  match readSimple data with
+  | none => "err:read"
+  | some v =>
+    match v.readPointsFast with
+    | none => "err:points"
+    | some pts =>
+      let r := GlyfPath.drawUnscaled pts v.endPts
+      let cs := " ".intercalate (r.1.map ToPath.Cmd.render)
+      let e := match r.2 with | none => "ok" | some _ => "err"
+      if r.1.isEmpty then e else s!"{cs} {e}"
+
 def handle (cmd : String) (args : List String) : Option String :=
   match cmd with
+  | "draw" =>
+    match args with
+    | [h] => (parseHex? h).map showDraw
+    | _ => none
+  | "path.glyph" => (runAll pEls (if args = ["-"] then [] else args)).map showFromBezpath
   | "g.owned" =>
     match args with
     | [h] => (parseHex? h).map showOwned
